@@ -712,17 +712,26 @@ func getTextContentRecursive(n *html.Node, result *strings.Builder) {
 	}
 }
 
-// getDirectTextContent gets text content from a node, excluding nested block elements.
+// getDirectTextContent gets the text of a list item, excluding nested lists
+// (the caller emits those as items of their own).
 func getDirectTextContent(n *html.Node) string {
 	var result strings.Builder
 	for c := n.FirstChild; c != nil; c = c.NextSibling {
 		if c.Type == html.TextNode {
 			result.WriteString(c.Data)
 		} else if c.Type == html.ElementNode {
-			// Include inline elements, skip block elements
 			switch c.Data {
-			case "ul", "ol", "div", "p", "table", "blockquote":
-				// Skip these - they're block elements
+			case "ul", "ol":
+				// Nested lists are traversed separately
+			case "div", "p", "table", "blockquote":
+				// Block content of the item (e.g. the <p> of a "loose" list item
+				// <li><p>text</p></li>) belongs to the item; keep it apart from
+				// its neighbours.
+				if text := getTextContent(c); text != "" {
+					result.WriteString(" ")
+					result.WriteString(text)
+					result.WriteString(" ")
+				}
 			default:
 				result.WriteString(getTextContent(c))
 			}
